@@ -418,7 +418,12 @@ func (o *ObjectSchema) validateMapTypesCompatibility(data map[string]any, compar
 	}
 	// Verify that all required fields are present
 	for k, property := range o.PropertiesValue {
-		if property.Required() && data[k] == nil {
+		supplied := data[k] != nil
+		if offered, isProperty := data[k].(*PropertySchema); isProperty && offered.Disabled && !property.Disabled {
+			// A producer whose property is disabled declares it, but never supplies it.
+			supplied = false
+		}
+		if property.Required() && !supplied {
 			return &ConstraintError{
 				Message: fmt.Sprintf("error while validating fields of objects %s, could not find required field %s", o.ReflectedType().String(), k),
 			}
